@@ -20,7 +20,7 @@ EXHAUSTIVE = {"quick": "all mantissas m/1000, m < 300000, x unit k; m < 20000 x 
 MIN_NONTRIVIAL = {"quick": 1000, "thorough": 10000}
 
 NAMES = ["chr1", "chrX", "2", "HLA-DRB1.1", "chr 1", "chrUn_gl000220", "1-2", "a.b-c", "X", "chr1_random",
-         "scaffold-12.3", "7", "MT", "GL000207.1", "chr-1", "a b c"]
+         "scaffold-12.3", "7", "MT", "GL000207.1", "chr-1", "a b c", "ctg7,1", "ctg71"]
 UNITS = ["k", "K", "kb", "Kb", "KB", "M", "m", "Mb", "MB", "G", "g", "Gb", "gb"]
 MULT = {"k": 10**3, "m": 10**6, "g": 10**9}
 
